@@ -12,6 +12,9 @@
       NetAbort pkts  the readb arm when the connection ends right after those packets: the state
                      machine has processed them, the buffered replies are NOT flushed, the loop
                      fails ("FailInBatch": the crash point inside a read batch)
+      TakeCancelled  the request arm had started (next_request: sleep(pending_throttle), and only then
+                     pop the request) and select() dropped it because another arm completed first:
+                     nothing has been taken — the loop is unchanged
       KeepAliveFire  the keep-alive arm: handle_outgoing_packet(PingReq)
       Fail           any Err out of select(): EventLoop::clean() — the state's unacknowledged work
                      goes IN FRONT of what is still pending (after the fix: commit 0960300; before
@@ -36,6 +39,7 @@ Inductive lop :=
 | UserSend (r : request)
 | Yield
 | TakeRequest
+| TakeCancelled
 | Net (pkts : list packet)
 | NetAbort (pkts : list packet)
 | KeepAliveFire
@@ -149,6 +153,7 @@ Definition lstep_gen (te : lstate -> bool) (lc : lstate -> Outcome (state * erro
         | None => Disabled
         end
       else Disabled
+  | TakeCancelled => Stepped l
   | Net pkts =>
       if arm_ready l && negb (match pkts with [] => true | _ => false end) then
         match read_batch (st l) pkts [] with
